@@ -11,6 +11,7 @@ package py
 
 import (
 	"bytes"
+	"reflect"
 )
 
 const dictDoc = `dict() -> new empty dictionary
@@ -188,6 +189,12 @@ func (a StringDict) M__len__() (Object, error) {
 }
 
 func (a StringDict) M__repr__() (Object, error) {
+	// a map is a reference: its address identifies the dict
+	id := reflect.ValueOf(a).Pointer()
+	if reprEnter(id) {
+		return String("{...}"), nil
+	}
+	defer reprLeave(id)
 	var out bytes.Buffer
 	out.WriteRune('{')
 	spacer := false
@@ -210,6 +217,22 @@ func (a StringDict) M__repr__() (Object, error) {
 	}
 	out.WriteRune('}')
 	return String(out.String()), nil
+}
+
+// String formats the dict as repr() does.  Without it fmt's %v would
+// walk the map itself, which never ends for a dict that contains itself
+// (error messages format keys and values with %v).
+func (a StringDict) String() string {
+	s, err := ReprAsString(a)
+	if err != nil {
+		return "{?}"
+	}
+	return s
+}
+
+// GoString does the same for %#v
+func (a StringDict) GoString() string {
+	return a.String()
 }
 
 // Returns a list of keys from the dict
